@@ -49,6 +49,7 @@ func runRGSW(c *eng.Ctx, cfg pcfg) {
 			po.encryptor(enc.Encryptor)
 		}
 		x := pt.CopyNew()
+		t.out(ct)
 		return []named{{"pt", x}, {"sk", e.sk}}, func() (string, error) { err := enc.Encrypt(x, ct); return snapString(ct), err }
 	}})
 	g := mkRGSW()
@@ -241,6 +242,7 @@ func runRGSWFree(t *T, e *rlweEnv, cfg pcfg) {
 					out = mk()
 				}
 			}
+			t.out(out)
 			return []named{{"ctIn", in}, {"powXMinusOne", &w}}, func() (string, error) { r.call(in, w, out); return rgswString(&rqp, out), nil }
 		})
 		t.runPatterns(r.name, "alias", "", []string{"out=in"}, func(pat string) ([]named, func() (string, error)) {
@@ -263,6 +265,7 @@ func runRGSWFree(t *T, e *rlweEnv, cfg pcfg) {
 				x.Value = append(x.Value, *pt.Value[i].CopyNew())
 			}
 			out := cp(B)
+			t.out(out)
 			return []named{{"op", x}}, func() (string, error) { rgsw.AddLazy(x, rqp, out); return rgswString(&rqp, out), nil }
 		})
 	}
